@@ -944,7 +944,12 @@ class Engine:
 
                     # get the time step
                     store, states = self._process_state(path)
-                    process_timestep = process.calculate_timestep(states)
+                    # a process whose interval did not fit into an earlier
+                    # run_for() keeps the timestep it requested then
+                    process_timestep = self.front[path].pop('timestep', None)
+                    if process_timestep is None:
+                        process_timestep = process.calculate_timestep(states)
+                    requested_timestep = process_timestep
 
                     future = process_time + process_timestep
                     if force_complete and future > end_time:
@@ -974,6 +979,8 @@ class Engine:
                             self.front[path]['update'] = (EmptyDefer(), store)
                             quiet_paths.append(path)
                     else:
+                        # the interval does not fit: try again later
+                        self.front[path]['timestep'] = requested_timestep
                         # absolute timestep
                         timestep = future - self.global_time
                         full_step = min(full_step, timestep)
